@@ -96,6 +96,10 @@ def run(ctx):
             return re.match(r"<iter\.(\w+)@before-next>$", pair[0]) is not None
         if not (isinstance(pair, tuple) and len(pair) == 2):
             return False
+        # one accessor that returns the pair `(line, column)`, taken apart in that order
+        mt = [re.match(r"<iter\.(\w+)@before-next\.(\d)>$", x) for x in pair]
+        if all(mt) and mt[0].group(1) == mt[1].group(1) and (mt[0].group(2), mt[1].group(2)) == ("0", "1"):
+            return True
         m = [re.match(r"<iter\.(\w+)@before-next>$", x) for x in pair]
         if not all(m) or m[0].group(1) == m[1].group(1):
             return False
